@@ -354,6 +354,74 @@ def s7(ctx, rep):
             "result is never delivered")
 
 
+def s8(ctx, rep):
+    """every result of a job becomes one result event, stamped start + elapsed + delay, for the job's trial; the completion
+    event carries the job's status; the result is stamped with the time of its event when it is processed"""
+    from ..engine import flows_into, deref
+    P = ctx.P
+    f = P.method("SimulatorBackend", "_process_start_event")
+    cfg = cfg_of(f)
+    tid, tev = f.params[1], f.params[2]
+    job = [x for x in walk_shallow(f.node) if isinstance(x, ast.Assign) and isinstance(x.value, ast.Call) and fn_name(x.value) == "_run_job_and_collect_results"
+           and isinstance(x.targets[0], ast.Tuple) and len(x.targets[0].elts) == 2]
+    if len(job) != 1:
+        raise AnchorError("_process_start_event: `status, results = self._run_job_and_collect_results(...)` not found")
+    stv, resv = U(job[0].targets[0].elts[0]), U(job[0].targets[0].elts[1])
+    loops = [n for n in cfg.nodes if n.kind == "for" and any(isinstance(y, ast.Name) and y.id == resv for y in ast.walk(n.ast.iter))]
+    if len(loops) != 1:
+        raise AnchorError("_process_start_event: loop over the job's results not found")
+    lp = loops[0]
+    tg = lp.ast.target
+    item = U(tg.elts[-1]) if isinstance(tg, ast.Tuple) else U(tg)
+    whole = isinstance(lp.ast.iter, ast.Name) or (isinstance(lp.ast.iter, ast.Call) and fn_name(lp.ast.iter) == "enumerate" and U(argn(lp.ast.iter, 0)) == resv)
+    rep.put(whole, "S6", "agreement", "SimulatorBackend._process_start_event: the loop runs over all results of the job", f, lp.ast, "",
+            f"the loop iterates `{U(lp.ast.iter)}`, not the whole result list: reports of the job are never delivered")
+    pushes = []
+    for n in cfg.nodes:
+        for x in cfg.node_walk(n.id):
+            if isinstance(x, ast.Call) and fn_name(x) == "push" and argn(x, 0) is not None:
+                ev = deref(f, argn(x, 0))
+                if isinstance(ev, ast.Call) and fn_name(ev) == "OnTrialResultEvent":
+                    pushes.append((n.id, x, ev))
+    ok = len(pushes) == 1
+    if ok:
+        nid, px, ev = pushes[0]
+        starts = [s_ for s_, l in cfg.succ[lp.id] if l == "iter"]
+        # every iteration passes the push
+        ok = cfg.path(starts, lp.id, deleted={nid}, skip_labels=("exc",)) is None
+        rep.put(ok, "S6", "must_follow", "SimulatorBackend._process_start_event: every result of the job is pushed as a result event", f, px, "",
+                "an iteration can end without scheduling its result: the report never arrives (levels are no longer consecutive)")
+        okev = kwarg(ev, "trial_id", 0) is not None and U(kwarg(ev, "trial_id", 0)) == tid and kwarg(ev, "result", 1) is not None and U(deref(f, kwarg(ev, "result", 1))) == item
+        rep.put(okev, "S6", "agreement", "SimulatorBackend._process_start_event: the result event carries this trial's id and this iteration's result", f, ev, "",
+                "the event delivers another result (or delivers it to another trial) than the one whose elapsed time stamps it")
+        et = kwarg(px, "event_time", 1)
+        parts = {"start": lambda y: isinstance(y, ast.Name) and y.id == tev,
+                 "elapsed": lambda y: isinstance(y, ast.Call) and fn_name(y) == "get" and U(y.func.value) == item and "elapsed_time_attr" in U(y)
+                 or (isinstance(y, ast.Subscript) and U(y.value) == item and "elapsed_time_attr" in U(y.slice)),
+                 "delay": lambda y: isinstance(y, ast.Attribute) and y.attr == "delay_on_trial_result"}
+        miss = [k for k, pr in parts.items() if et is None or not flows_into(f, et, pr)]
+        # a sum: the stamp is built with + only
+        e_ = deref(f, et) if et is not None else None
+        plus_only = e_ is not None and all(isinstance(b.op, ast.Add) for b in ast.walk(e_) if isinstance(b, ast.BinOp))
+        rep.put(not miss and plus_only, "S6", "agreement", "SimulatorBackend._process_start_event: result time = start of the run + elapsed time + result delay", f, px, "",
+                f"the time stamp of the result event lacks {miss or 'a plain sum'}: results arrive at another simulated time than the table says")
+    else:
+        raise AnchorError("_process_start_event: push(OnTrialResultEvent(...)) not found exactly once")
+    cpush = [deref(f, argn(x, 0)) for x in walk_shallow(f.node) if isinstance(x, ast.Call) and fn_name(x) == "push" and argn(x, 0) is not None]
+    cev = [e for e in cpush if isinstance(e, ast.Call) and fn_name(e) == "CompleteEvent"]
+    okc = len(cev) == 1 and kwarg(cev[0], "status", 1) is not None and U(kwarg(cev[0], "status", 1)) == stv and U(kwarg(cev[0], "trial_id", 0)) == tid
+    rep.put(okc, "S6", "agreement", "SimulatorBackend._process_start_event: the completion event carries the job's status for this trial", f, cev[0] if cev else None, "",
+            "the run ends with another status than the job returned (a failed job completes, or vice versa)")
+    g = P.method("SimulatorBackend", "_process_on_trial_result_event")
+    cg = cfg_of(g)
+    tv = g.params[1]
+    stamp = {n.id for n in cg.nodes if n.kind == "stmt" and isinstance(n.ast, ast.Assign) and any(
+        isinstance(t, ast.Subscript) and U(t.slice) == "ST_TUNER_TIME" for t in n.ast.targets) and U(n.ast.value) == tv}
+    oks = bool(stamp) and cg.path([cg.entry], cg.exit, deleted=stamp, skip_labels=("exc",)) is None
+    rep.put(oks, "S6", "must_follow", "SimulatorBackend._process_on_trial_result_event: the result is stamped with the time of its event", g, None, "",
+            "a delivered result carries no (or another) simulated time stamp than the time its event was due")
+
+
 def run(ctx, rep, tier="quick"):
     s1(ctx, rep)
     s2(ctx, rep)
@@ -369,3 +437,5 @@ def run(ctx, rep, tier="quick"):
     s2b(ctx, rep)
     s5b(ctx, rep)
     s7(ctx, rep)
+    s8(ctx, rep)
+    c02.event_dispatch(ctx, rep, "S6")
